@@ -24,7 +24,7 @@ import itertools
 from ..model import AnalysisError, src_of
 from ..report import Finding
 from ..vg import Builder, Frame
-from ..nf import NFEval, NAN, leaves, Struct
+from ..nf import NFEval, NAN, leaves, Struct, DiffUnsupported
 from ..ratnf import NFSym
 from .c09 import STATE, OTHER, UTILS, RIEMANN, data_side
 from . import c04
@@ -221,6 +221,61 @@ def _root_kinds(model, cls, rootf):
     return kinds
 
 
+def _definite_sign(e, gammas):
+    """+1 / -1 when the sympy expression e (positive symbols; every adiabatic index written 1 + d with d > 0) is
+    shown positive / negative for all values: by sympy's sign rules on the expression, else on the expanded numerator
+    and denominator of its single fraction (sums of like-signed terms, radicals of such sums).  None: not shown."""
+    import sympy
+    e = e.xreplace({g: 1 + sympy.Symbol('d_' + g.name, positive=True) for g in gammas})
+    if e.is_positive:
+        return 1
+    if e.is_negative:
+        return -1
+    num, den = sympy.fraction(sympy.together(e))
+    s = 1
+    for part in (num, den):
+        for form in (sympy.expand(part), None):
+            if form is None:
+                form = sympy.factor(part)
+            if form.is_positive:
+                break
+            if form.is_negative:
+                s = -s
+                break
+        else:
+            return None
+    return s
+
+
+def _root_slopes(model, cls, rootf):
+    """(sign of d root / d p, sign of d root / d ur) of the root equation rootf(p, inst) for symbolic positive
+    states and adiabatic indices > 1; a sign is None when it is not definite (not shown)."""
+    b, inst, mod = _instance(model, cls)
+    p = b.mk('input', 'p')
+    r = b.run_function(model.get_func('%s:%s' % (UTILS, rootf)), [p, inst])
+    ev = NFEval(STATE + OTHER)
+    n = ev.nf(r)
+    out = []
+    for var in (p, b.get_attr(inst, 'ur')):
+        vn = ev.nf(var)
+        keys = list(getattr(vn, 'f', {}).keys())
+        if len(keys) != 1:
+            raise AnalysisError('%s: differentiation variable is not an atom' % rootf)
+        signs = set()
+        for conds, leaf in leaves(ev.diff(n, keys[0])):
+            if leaf is NAN or isinstance(leaf, Struct):
+                signs.add(None)
+                continue
+            if ev.is_zero(leaf):
+                signs.add(0)
+                continue
+            sy = NFSym(ev)
+            e = sy.conv(leaf)
+            signs.add(_definite_sign(e, [v for k, v in sy.syms.items() if k in ('param:gl', 'param:gr')]))
+        out.append(signs.pop() if len(signs) == 1 else None)
+    return tuple(out)
+
+
 def boundaries(model, res, prop=PROP, rule=RULE):
     cls, drv, thr, branches = _read_driver(model)
     pats = [br for br in branches if br['letters']]
@@ -255,6 +310,25 @@ def boundaries(model, res, prop=PROP, rule=RULE):
            % (br['letters'], br['root'], ', '.join('%s wave: %s' % (s, '/'.join(sorted(k))) for s, k in sorted(kinds.items())),
               br['label']),
            {'branch': br['letters'], 'root': br['root'], 'waves': {k: sorted(v) for k, v in kinds.items()}})
+
+    # (d) the root equation is strictly monotone in p (one root: with (a) the side of p* is decided) and the star
+    #     pressure falls as ur grows (what (b) relies on): d root/d p and d root/d ur have the same definite sign
+    for br in pats:
+        try:
+            sp_, su_ = _root_slopes(model, cls, br['root'])
+        except DiffUnsupported as exc:
+            raise AnalysisError('%s: derivative of the root equation not available (%s)' % (br['root'], exc))
+        ob(sp_ in (1, -1), br, '%s: %s is strictly monotone in p' % (br['letters'], br['root']),
+           "RiemannIGEOS.driver: the %s branch takes the star pressure as a root of %s, but d %s / d p is not of one sign "
+           "for all positive states and adiabatic indices > 1 (sign pattern of the symbolic derivative: %s): the equation "
+           "can have a second root on the other side of the initial pressure, which bisect may return: a shock with "
+           "p* < p0 (expansive) or a fan that compresses" % (br['letters'], br['root'], br['root'], sp_),
+           {'branch': br['letters'], 'root': br['root'], 'identity': 'sign(d %s / d p) = %s for all states' % (br['root'], sp_)})
+        ob(sp_ in (1, -1) and su_ == sp_, br, '%s: star pressure of %s falls as ur grows' % (br['letters'], br['root']),
+           "RiemannIGEOS.driver: for the %s branch d %s / d ur has sign %s and d %s / d p sign %s: the star pressure does not "
+           "fall as ur grows, so below the threshold where the %s wave is degenerate the pattern with the shock is used "
+           "with p* < p0 (expansion shock)" % (br['letters'], br['root'], su_, br['root'], sp_, br['letters']),
+           {'branch': br['letters'], 'root': br['root'], 'identity': 'sign(d root / d ur) = sign(d root / d p) = %s' % sp_})
 
     # (a), (b) every threshold separates two patterns that differ in one wave, degenerate at the threshold
     for br in pats:
@@ -303,8 +377,8 @@ def boundaries(model, res, prop=PROP, rule=RULE):
                        "the star pressure falls as ur grows, so the pattern with the shock on the %s side must be the one "
                        "for the smaller ur: as coded the shock has p* < %s (expansive)"
                        % (name, br['letters'], q['letters'], 'left' if side == 'l' else 'right', pd))
-    if res.obligations - n_before < 16 and not reported:
-        raise AnalysisError('only %d wave-pattern conditions generated (confirmed: 16)' % (res.obligations - n_before))
+    if res.obligations - n_before < 24 and not reported:
+        raise AnalysisError('only %d wave-pattern conditions generated (confirmed: 24)' % (res.obligations - n_before))
 
 
 # ---------------------------------------------------------------------------
